@@ -20,7 +20,7 @@ SPEC = {
     "assumptions": ["vlib/langspec.py (hand-written from the AVM specification; only 'certain' entries can alarm)",
                     "vlib/tealgrammar.py (Go assembler tokenizer and literal grammar)", "vlib/cfg.py path analysis"],
     "min_evaluations": {"quick": 8000, "thorough": 60000},
-    "must_reach": ["emitted_suite", "emitted_catalogue", "emitted_sequence", "emitted_corpus", "emitted_recipe", "emitted_labels", "emitted_immediates", "emitted_router", "emitted_abi",
+    "must_reach": ["emitted_tail", "emitted_suite", "emitted_catalogue", "emitted_sequence", "emitted_corpus", "emitted_recipe", "emitted_labels", "emitted_immediates", "emitted_router", "emitted_abi",
                    "rejected_pt_error", "legal", "gated_constructs_seen"],
     "shard_timeout": {"quick": 2400, "thorough": 14400},
 }
@@ -102,6 +102,8 @@ def run_shard(shard):
     for it in feed.label_items(pt, rng, shard["labels"]):
         judge(acc, it, seen)
     for it in feed.sequence_items(pt, rng, shard["labels"]):
+        judge(acc, it, seen)
+    for it in feed.tail_items(pt, rng, shard["labels"]):
         judge(acc, it, seen)
     for it in feed.immediate_items(pt, rng, shard["immediates"]):
         judge(acc, it, seen)
